@@ -175,6 +175,11 @@ func nonZeroAt(fn *ssa.Function, v ssa.Value, b *ssa.BasicBlock) (string, bool) 
 	}
 	// len(array) etc. are not attempted.
 	for _, f := range factsAt(b) {
+		if ex, isEx := f.Cond.(*ssa.Extract); isEx && !f.Val {
+			if why, ok := helperSaysNonZero(ex, core); ok {
+				return why, true
+			}
+		}
 		bo, ok := f.Cond.(*ssa.BinOp)
 		if !ok {
 			continue
@@ -261,4 +266,57 @@ func inPackageCallees(roots []*ssa.Function) []*ssa.Function {
 		visit(r)
 	}
 	return out
+}
+
+// helperSaysNonZero: ex is result k of a call h(x) known to be false here; h returns true in
+// position k on the true edge of every `x.F == 0` test it makes, so false means x.F != 0.
+func helperSaysNonZero(ex *ssa.Extract, core ssa.Value) (string, bool) {
+	call, ok := ex.Tuple.(*ssa.Call)
+	if !ok || len(call.Call.Args) == 0 {
+		return "", false
+	}
+	h := call.Call.StaticCallee()
+	if h == nil || len(h.Blocks) == 0 || h.Pkg == nil || call.Parent().Pkg != h.Pkg || len(h.Params) == 0 {
+		return "", false
+	}
+	want := describeVal(core)
+	argDesc := describeVal(call.Call.Args[0])
+	found := false
+	eachInstr(h, func(i ssa.Instruction) {
+		bo, isBo := i.(*ssa.BinOp)
+		if !isBo || bo.Op != token.EQL || found {
+			return
+		}
+		if z, isZ := constInt(bo.Y); !isZ || z != 0 {
+			return
+		}
+		gd := describeVal(bo.X)
+		if !strings.HasPrefix(gd, "recv") && !strings.HasPrefix(gd, "arg0") {
+			return
+		}
+		if argDesc+gd[4:] != want {
+			return
+		}
+		ifi := implIf(bo, true, 0)
+		if ifi == nil {
+			return
+		}
+		okAll := true
+		n := 0
+		for j := range exploreBlock(ifi.Block().Succs[0], nil) {
+			if r, isR := j.(*ssa.Return); isR {
+				n++
+				if v, isC := constBool(r.Results[ex.Index]); !isC || !v {
+					okAll = false
+				}
+			}
+		}
+		if okAll && n > 0 {
+			found = true
+		}
+	})
+	if found {
+		return "helper " + shortFn(h) + " reports true whenever " + want + " == 0, and it reported false", true
+	}
+	return "", false
 }
